@@ -505,7 +505,14 @@ class Assembler:
                 return
             head = ''
             if blk.head_all and not (tgt and tgt.omit):
-                head += '\n' + blk.head_all + '\n'
+                # a head-all text that speaks of `self` is not put into an associated fn without receiver (a helper such
+                # as `fn always_fits(a: &T, b: &T) -> bool` added to the impl later): it would not even resolve
+                sig_text = text[fn_item.kw_start:st[a].start]
+                has_receiver = re.search(r'\(\s*(?:&\s*(?:\'\w+\s+)?(?:mut\s+)?|mut\s+)?self\b', sig_text) is not None
+                if has_receiver or not re.search(r'\bself\b', blk.head_all):
+                    head += '\n' + blk.head_all + '\n'
+                else:
+                    self.rewrites.append('H %s fn %s has no receiver: head-all text (mentions self) not spliced' % (blk.relpath, fn_item.name))
             if tgt and tgt.head:
                 head += '\n' + tgt.head + '\n'
             if canary and (tgt is None or tgt.canary):
